@@ -375,6 +375,13 @@ def check_complete(prog, ctx):
                 have = must_assigned(prog, f, nv)
             missing = sorted(slots - have)
             n += 1
+            if missing and mname != "__init__" and ci.name in EVALUATED_COPIES:
+                # the must-assign walk follows `new = <cls>.__new__(...)` / super().copy() chains; a copy assembled through another helper is
+                # judged by what it returns: R14.8 evaluates copy / copy_with and demands every slot of the class on the result
+                ctx.ok("R14.4", f"{f.file}:{f.qualname}", f"{ci.name}.{mname}: the slot assignments are not in a form the must-assign walk follows "
+                                                           f"(unseen: {missing}); slot completeness of the result is decided by R14.8 (evaluation)")
+                ctx.notes.append(f"R14.4: {ci.name}.{mname} builds its copy through a helper the path rule does not follow; decided by R14.8")
+                continue
             ctx.check(not missing, "R14.4", f, f.node, f"slots not assigned: {missing}",
                       f"{ci.name}.{mname} assigns every slot {sorted(slots)} on every path"
                       + (f" — missing {missing}" if missing else ""))
